@@ -69,7 +69,7 @@ type FV struct {
 	litStmts      map[*ast.FuncLit]ast.Stmt
 	rangeCallback *Term // the callback value of a synthetic call made for `range recv.M`
 	skolemCount int
-	ixNames map[string]string // names of compound ground index terms
+	trigSorts map[string]string // sort of every trigger term written in a contract (key: the term's text)
 	curResults []Term // values being returned, while the ghost statements anchored at a return run
 	funcConstNames []string
 	funcCands map[types.Object][]funcCand // locals that only ever hold known functions
@@ -151,9 +151,18 @@ func newFV(w *World, fi *FuncInfo) *FV {
 		"(declare-datatypes ((Slice 0)) (((mk-slice (sbase Int) (soff Int) (slen Int) (scap Int)))))",
 		"(declare-datatypes ((Str 0)) (((mk-str (strbase Int) (stroff Int) (strlen Int)))))",
 		"(declare-fun strdata (Int Int) (_ BitVec 8))",
+		// at$ is addition, known to the solver only through a triggered axiom. The address of s[k] is written
+		// (at$ (soff s) k) so that quantifier patterns over slice elements contain no arithmetic: E-matching is
+		// syntactic, the solvers reorder and flatten sums ((+ off (+ a 1)) becomes (+ 1 off a); even (+ off i) is
+		// stored as (+ i off) when i was declared first), and a pattern (+ off k) then matches by luck or not at all
+		"(declare-fun at$ (Int Int) Int)",
 	)
+	fv.axioms = append(fv.axioms, "(forall ((o Int) (k Int)) (! (= (at$ o k) (+ o k)) :pattern ((at$ o k))))")
 	return fv
 }
+
+// elemAddr is the address of element idx of slice term s within its backing array (see at$ in newFV).
+func elemAddr(s, idx string) string { return "(at$ (soff " + s + ") " + idx + ")" }
 
 func (fv *FV) fail(pos token.Pos, format string, args ...interface{}) {
 	p := ""
